@@ -97,6 +97,7 @@ fn main() {
 		}
 		("replay", "C20") => c20::replay(&args[3], &args[4]),
 		("replay", "TILEJSON") => tj::replay(&args[3], &args[4]),
+		("replay", "HTTPRANGE") => httpd::replay(&args[3], &args[4], &args[5]),
 		("record", "C20") => c20::record(&args[3], seed, thorough),
 		_ => {
 			eprintln!("unknown command {:?}", &args[1..]);
